@@ -76,6 +76,12 @@ def run(res, tier, rng, table_diffs=()):
     deep = [[runaway, small_call], [runaway, runaway, small_call, ok_deep], [fail_deep] * 4 + [ok_deep, small_call],
             [ok_deep, fail_deep, ok_deep], ["stel a = 1", fail_deep, "a", runaway, "a + 1", small_call],
             [fail_deep, "functie g() { [1.5, \"s\"] } g()", runaway, "functie g() { [2.5] } g()[0]"]]
+    # a line that fails with operands PENDING at top level (a half-built list, a left operand, arguments) leaves nothing on the
+    # retained machine's stack: afterwards the deepest recursion that fits in a fresh session still fits
+    big_fail = "[" + ", ".join(["1"] * 60000) + ", 1 / 0]"
+    pend = ["a + 1 / 0", "[a, a, a / 0]", "q(a, a / 0)", "a + h(3)"]
+    deep += [["stel a = 1", big_fail, ok_deep, "a"], ["stel a = 1", small_call, "functie h(n) { 1 / 0 }; 0"] + pend * 3 + [ok_deep, small_call, "a"],
+             ["stel a = 1", big_fail, big_fail, runaway, ok_deep]]
     never_written = [["stel x = 1 / 0", "stel y = 5", "x", "y"], ["stel a = 2", "stel q = a / 0", "stel r = a / 0", "stel z = a + 40", "q", "r", "z"],
                      ["stel x = 1 / 0", "x", "stel x = 3", "x"], ["stel x = 1 / 0", "stel y = 2 / 0", "stel z = 9", "x", "y", "z", "stel w = 8", "x"]]
     inside = ["!ja; zolang a < 5 { a = a + 1; zz }", "zolang ja { stel q = 1; functie f() { zz } }", "functie f() { zolang ja { zz } }", "zolang zz { 1 }",
